@@ -177,6 +177,26 @@ def option_test_edges(body, dag, result_local):
     return out
 
 
+def bool_test_edges(body, dag, result_local, def_block=None):
+    """tests of a boolean call result held in `result_local` (possibly through copies / negations): list of (block, target when true, target when false)"""
+    out = []
+    same = copies_of(body, result_local)
+    for b in sorted(body.reachable):
+        t = body.term(b)
+        if t[0] != "Switch" or t[5] != "bool": continue
+        e = dag.expr(t[1]); neg = False
+        while e[0] == "un" and e[1] == "Not": e = e[2]; neg = not neg
+        l = op_local(t[1])
+        hit = False
+        if e[0] == "call" and len(e) > 3 and def_block is not None and e[3] == def_block and body.term(def_block)[1]["dst"]["l"] == result_local: hit = True
+        if not neg and l in same: hit = True
+        if not hit: continue
+        zero = [tg for (v, tg) in t[2] if v == 0]
+        if not zero: continue
+        out.append((b, zero[0], t[3]) if neg else (b, t[3], zero[0]))
+    return out
+
+
 def flag_paths(body, dag, start, stop_blocks=(), cut=None, follow_back=True, visit=None):
     """Path exploration that understands flags: blocks reachable from `start` without entering `stop_blocks`, where
       * an edge is pruned when it contradicts the value last assigned to the tested flag on that path
